@@ -2,6 +2,7 @@
 from __future__ import annotations
 
 import copy
+import re
 import inspect
 import itertools
 import json
@@ -15,7 +16,7 @@ from specmc.sandbox import Sandbox
 
 ID = "C03"
 LEVEL = "model_checking"
-RULE = ("operations: full product location x kind x required (parameter matrix), media type x body kind (body matrix), "
+RULE = ("the URL: 11 path forms (root, trailing slash, colon segments, parameters glued to text) x 6 base_url spellings x 5 path values, sync and async; operations: full product location x kind x required (parameter matrix), media type x body kind (body matrix), "
         "deviation-bounded builder over method, path shape, hostile names, same name in two locations, path-item "
         "override, two media types, security; plus security requirement forms (operation / document level, cleared, replaced, alternatives, api key, basic), path items whose shared parameters each operation inherits or re-declares (all combinations over 3-4 methods), content_type_overrides bodies, reusable parameters with names equal after normalisation, all call sequences of length 3 (thorough 4) over 7 actions through ONE client compared with fresh-client calls, all sequences of length 4 (thorough 5) over 10 client actions (with_headers / with_cookies / with_timeout / touch / enter / calls) on an authenticated client against a reference model of the accumulated extras; inputs: every argument in {unset, v1, v2} one at a time over a base "
         "vector + all-set + all-unset; non-trivial = the operation was generated and at least one request captured")
@@ -421,6 +422,7 @@ def _security_cases():
 
 
 def cases(tier):
+    yield from _url_cases()
     yield from _security_cases()
     yield from _pathitem_cases(tier)
     yield from _override_cases(tier)
@@ -832,7 +834,73 @@ def _run_client_sequence(p):
     return {"violations": uniq, "outcome": "ok" if not uniq else "viol:client-derivation", "nontrivial": steps > 0, "steps": steps}
 
 
+URL_PATHS = ["/", "/r", "/r/", "/items:search", "/{pid}:archive", "/{pid}", "/v1.0/a~b/c-d_e", "/r/{pid}/", "/a/{pid}.json", "/a:b/{pid}:c/d", "/{pid}/{sub}"]
+URL_BASES = ["http://testserver", "http://testserver/", "http://testserver/api/v1", "http://testserver/api/v1/", "https://testserver:8443/p", "http://testserver/a:b"]
+URL_VALUES = ["orders", "2024", "a b", "x:y", "p%q"]
+
+
+def _url_cases():
+    """The URL an operation is sent to: every path form x every spelling of base_url x path values (full product)."""
+    for path in URL_PATHS:
+        yield {"labels": [f"url-path={path}"], "payload": {"mode": "url-forms", "path": path, "key": "url-forms"}}
+
+
+def _run_url_forms(p):
+    import urllib.parse
+    path = p["path"]
+    names = re.findall(r"\{(\w+)\}", path)
+    params = [{"name": n, "in": "path", "required": True, "schema": {"type": "string"}} for n in names]
+    doc = gen.base_doc(None, paths={path: {"get": {"operationId": "theOp", "parameters": params, "responses": {"204": {"description": "n"}}}}})
+    res = gen.generate(doc)
+    if res.crash:
+        return {"skipped_crash": True, "outcome": f"crash:{res.crash['type']}", "nontrivial": False}
+    if res.rejected or not res.endpoints:
+        return {"outcome": "no-endpoint", "nontrivial": False}
+    viol, steps = [], 0
+    with Sandbox(res.pkg_tree()) as sb:
+        try:
+            mod = wire.endpoint_module(sb, res.endpoints[0])
+        except Exception as exc:  # noqa: BLE001
+            return {"outcome": f"import-fails:{type(exc).__name__}", "nontrivial": False}
+        pymap = {q["name"]: q["py"] for q in res.endpoints[0]["path_params"]}
+        for base in URL_BASES:
+            bu = urllib.parse.urlsplit(base)
+            for val in (URL_VALUES if names else [None]):
+                kwargs = {pymap[n]: (val if i == 0 else "s2") for i, n in enumerate(names)}
+                filled = path
+                for i, n in enumerate(names):
+                    filled = filled.replace("{" + n + "}", val if i == 0 else "s2")
+                want_origin = f"{bu.scheme}://{bu.netloc}"
+                want_path = bu.path.rstrip("/") + filled
+                got = {}
+                for variant in ("sync_detailed", "asyncio_detailed"):
+                    cap = wire.Capture(lambda request: __import__("httpx").Response(204))
+                    r = wire.call(mod, variant, lambda: wire.make_client(sb, cap, base_url=base), cap, dict(kwargs))    # noqa: B023
+                    steps += 1
+                    if r is None:
+                        continue
+                    if not r["ok"] or not r["requests"]:
+                        got[variant] = f"raises {type(r.get('exc')).__name__}"
+                        continue
+                    q = r["requests"][0]
+                    got[variant] = (q["origin"], urllib.parse.unquote(q["path"]))
+                for variant, g in got.items():
+                    if g != (want_origin, urllib.parse.unquote(want_path)):
+                        form = "colon-in-first-segment" if ":" in filled.split("/")[1] else ("root" if filled == "/" else ("trailing-slash" if filled.endswith("/") else "plain"))
+                        viol.append({"oracle": "url", "site": variant.split("_")[0], "key": f"url-forms/{form}/{'base-with-path' if bu.path.strip('/') else 'bare-base'}",
+                                     "detail": f"{variant}: path template {path!r} with {kwargs!r} on base_url {base!r} was sent to {g!r}, expected {(want_origin, want_path)!r}"})
+    seen, uniq = set(), []
+    for v in viol:
+        k = (v["oracle"], v["site"], v["key"])
+        if k not in seen:
+            seen.add(k)
+            uniq.append(v)
+    return {"violations": uniq, "outcome": "ok" if not uniq else "viol:url", "nontrivial": True, "steps": steps}
+
+
 def run_case(p):
+    if p.get("mode") == "url-forms":
+        return _run_url_forms(p)
     if p.get("mode") == "sequence":
         return _run_sequence(p)
     if p.get("mode") == "client-sequence":
